@@ -183,9 +183,17 @@ def _impl_chunk(lines):
             out.append(impl.evaluate(line))
         except Hang:
             out.append("hang")
-        except BaseException as e:  # harness bug, not an implementation outcome
-            out.append("harness-error " + type(e).__name__ + " " + str(e).replace("\n", " ")[:300]
-                       + " @ " + traceback.format_exc().strip().split("\n")[-3].strip()[:200])
+        except BaseException as e:
+            tb = traceback.extract_tb(e.__traceback__)
+            if line.startswith("prop.") and tb and os.path.abspath(tb[-1].filename).startswith(os.path.abspath(REPO) + os.sep) \
+                    and isinstance(e, Exception):
+                # a property evaluation that the code under test ends with an exception nobody expected there: on the unchanged
+                # tree no such line exists, so this is what a changed tree does to an input the property covers
+                out.append(f"FAIL the code under test raised {type(e).__name__}: {str(e)[:200]} at "
+                           f"{os.path.relpath(tb[-1].filename, REPO)}:{tb[-1].lineno} where the evaluation expected a result")
+            else:                   # harness bug, not an implementation outcome
+                out.append("harness-error " + type(e).__name__ + " " + str(e).replace("\n", " ")[:300]
+                           + " @ " + traceback.format_exc().strip().split("\n")[-3].strip()[:200])
         finally:
             signal.alarm(0)
         if time.time() - _t < 0.3 and not line.startswith(HEAVY_OPS) and zlib.crc32(line.encode()) % 8 == 0:
